@@ -74,9 +74,9 @@ func (w *c12World) candidates(op *c12Op, c *rtCall, h *hon) ([]mutation, []int) 
 				"sct.ds.trailing", "sct.ds.trunc", "sct.ds.hashalg", "sct.ds.sigalg", "sct.ds.lenprefix", "sct.ds.empty",
 				"sct.version", "sct.ext.badb64", "sct.ext.unsigned", "sct.ext.signed")
 		case "get-entries":
-			add("bytes", "entry.leaf_input", "entry.extra_data", "entry.swap-extra", "entry.drop", "entry.dup")
+			add("bytes", "entry.leaf_input", "entry.extra_data", "entry.swap-extra", "entry.drop", "entry.dup", "entry.omit")
 		case "get-entry-and-proof":
-			add("bytes", "entry.leaf_input", "entry.extra_data", "proof.node.len", "proof.drop")
+			add("bytes", "entry.leaf_input", "entry.extra_data", "proof.node.len", "proof.drop", "entry.omit")
 		case "get-sth-consistency", "get-proof-by-hash":
 			add("bytes", "proof.node.len", "proof.drop", "proof.add")
 		case "get-roots":
@@ -464,6 +464,45 @@ func (w *c12World) mutate(op *c12Op, c *rtCall, h *hon) *served {
 		nb, note := w.mutBytes(b, f == "leaf_input")
 		target[f] = b64(nb)
 		o.Kind = "entry." + f + "." + note
+	case "entry.omit":
+		// a field that is not there at all (as opposed to an empty one): a decoder that fills a structure it has used
+		// before keeps whatever that structure held. The entry is then {"leaf_input": ...} only, {"extra_data": ...}
+		// only, {} or null.
+		which := t.Intn(4)
+		strip := func(e map[string]any) any {
+			c := map[string]any{}
+			for k, v := range e {
+				c[k] = v
+			}
+			switch which {
+			case 0:
+				delete(c, "leaf_input")
+			case 1:
+				delete(c, "extra_data")
+			case 2:
+				delete(c, "leaf_input")
+				delete(c, "extra_data")
+			default:
+				if _, isEntry := e["audit_path"]; !isEntry {
+					return nil
+				}
+				delete(c, "leaf_input")
+				delete(c, "extra_data")
+			}
+			return c
+		}
+		if list, ok := obj["entries"].([]any); ok && len(list) > 0 {
+			list = append([]any{}, list...)
+			i := t.Intn(len(list))
+			if t.Chance(1, 2) {
+				i = len(list) - 1 // the far end of the batch is where an earlier, longer or aborted batch leaves things behind
+			}
+			list[i] = strip(list[i].(map[string]any))
+			obj["entries"] = list
+		} else if _, ok := obj["leaf_input"]; ok {
+			obj = strip(obj).(map[string]any)
+		}
+		o.Kind = "entry.omit." + []string{"leaf_input", "extra_data", "both", "null"}[which]
 	case "entry.swap-extra":
 		list := append([]any{}, obj["entries"].([]any)...)
 		i := t.Intn(len(list))
